@@ -386,7 +386,27 @@ func runC15(c *Ctx) {
 		good := false
 		wrongSign := false
 		for n, in := range g.Ins {
-			if !r[n] {
+			if ex, isEx := in.(*ssa.Extract); isEx && !r[n] {
+				// the bound value of `switch t := v.(type)` is extracted next to
+				// the test; it counts where it is used on the case's side
+				usedHere := false
+				for _, u := range usersOf(ex) {
+					if un, ok := g.Idx[u]; ok && (r[un] || g.UnreachableWithout(un, []Edge{*okEdge})) {
+						usedHere = true
+					}
+					if phi, isPhi := u.(*ssa.Phi); isPhi {
+						pe := g.predEdges(phi.Block())
+						for i, e := range phi.Edges {
+							if e == ssa.Value(ex) && (r[pe[i].From] || g.UnreachableWithout(pe[i].From, []Edge{*okEdge})) {
+								usedHere = true
+							}
+						}
+					}
+				}
+				if !usedHere {
+					continue
+				}
+			} else if !r[n] {
 				continue
 			}
 			var val ssa.Value
@@ -395,6 +415,12 @@ func runC15(c *Ctx) {
 				val = x
 			case *ssa.TypeAssert:
 				if !x.CommaOk && (k == types.Int64 || k == types.Uint64) {
+					val = x
+				}
+			case *ssa.Extract:
+				// binding form (switch t := v.(type)): the asserted value itself,
+				// already 64 bits wide, when it is used
+				if ta, ok := x.Tuple.(*ssa.TypeAssert); ok && ta.CommaOk && x.Index == 0 && (k == types.Int64 || k == types.Uint64) && len(usersOf(x)) > 0 {
 					val = x
 				}
 			}
